@@ -177,7 +177,9 @@ func (_this *markerObjectBuilder) BuildEndContainer(ctx *Context) {
 }
 
 func (_this *markerObjectBuilder) BuildArtificiallyEndContainer(ctx *Context) {
-	_this.child.BuildArtificiallyEndContainer(ctx)
+	// The marked object never arrived, so there is nothing to mark. The child
+	// is the builder of the enclosing container, which gets its own turn.
+	ctx.UnstackBuilder()
 }
 
 func (_this *markerObjectBuilder) NotifyChildContainerFinished(ctx *Context, value reflect.Value) {
